@@ -17,7 +17,8 @@ REPO = os.environ.get('VERIF_REPO', '/repo')
 
 def run(pid):
   muts = json.load(open(os.path.join(VERIF, 'mutants', 'mutants.json'))).get(pid, [])
-  out = {'property': pid, 'mutants': len(muts), 'killed': 0, 'equivalent_ok': 0, 'survived': [], 'false_alarm': [], 'other': []}
+  out = {'property': pid, 'mutants': len(muts), 'killed': 0, 'equivalent_ok': 0, 'survived': [], 'false_alarm': [],
+         'undecided': [], 'other': []}
   for rel, sed, expect in muts:
     d = tempfile.mkdtemp(prefix='mutaudit.')
     try:
@@ -31,7 +32,9 @@ def run(pid):
       env.pop('VERIF_TIER', None)
       r = subprocess.run([os.path.join(VERIF, 'check'), pid], capture_output=True, text=True, env=env, timeout=3600)
       code = r.returncode
-      if expect == 'detect':
+      if code == 2:
+        out['undecided'].append([sed, expect])       # the changed code is outside the subset: no verdict either way
+      elif expect == 'detect':
         if code == 1:
           out['killed'] += 1
         else:
